@@ -151,8 +151,56 @@ def run(prog: Program, rep: Report, tier: str):
         t = fa_.sym.term(call.args[0], n)
         return t[0] == "call" and t[1][0] == "global" and t[1][1].endswith("get_rng_from_global")
 
+    def _is_fresh_ast(e_):
+        return isinstance(e_, ast.Call) and getattr(e_.func, "id", getattr(e_.func, "attr", "")) == "get_rng_from_global"
+
+    def given_or_fresh(fi_, e_):
+        """e_ is '<fresh> if p is None else p' (or the mirrored spelling) for a parameter p of fi_ whose default is None: the name
+        of p, else None."""
+        if not isinstance(e_, ast.IfExp) or not isinstance(e_.test, ast.Compare) or len(e_.test.ops) != 1:
+            return None
+        t_ = e_.test
+        if not (isinstance(t_.left, ast.Name) and isinstance(t_.comparators[0], ast.Constant) and t_.comparators[0].value is None):
+            return None
+        fresh_arm, given_arm = (e_.body, e_.orelse) if isinstance(t_.ops[0], ast.Is) else (
+            (e_.orelse, e_.body) if isinstance(t_.ops[0], ast.IsNot) else (None, None))
+        if fresh_arm is None or not _is_fresh_ast(fresh_arm) or not (isinstance(given_arm, ast.Name) and given_arm.id == t_.left.id):
+            return None
+        a_ = fi_.node.args
+        dflt = dict(zip([x.arg for x in a_.kwonlyargs], a_.kw_defaults))
+        pos = a_.posonlyargs + a_.args
+        dflt.update(zip([x.arg for x in pos[len(pos) - len(a_.defaults):]], a_.defaults))
+        d_ = dflt.get(t_.left.id)
+        return t_.left.id if isinstance(d_, ast.Constant) and d_.value is None else None
+
+    # the collator hook may take the generator from its caller: 'def worker_init_fn(self, *_, rng=None, **__):
+    # self.set_rng(<fresh> if rng is None else rng)' - then calling the hook with rng=<fresh> is a forwarding call as well
+    hook_param = None
+    base_hook = prog.cls("KDCollatorBase").methods.get("worker_init_fn")
+    if base_hook is not None:
+        hfa = fa_of(prog, base_hook)
+        hp = {given_or_fresh(base_hook, c_.args[0]) for n_, c_ in hfa.calls() if isinstance(c_.func, ast.Attribute) and
+              c_.func.attr == "set_rng" and isinstance(c_.func.value, ast.Name) and c_.func.value.id == hfa.self_name and c_.args}
+        sets = {n_ for n_, c_ in hfa.calls() if isinstance(c_.func, ast.Attribute) and c_.func.attr == "set_rng" and c_.args
+                and given_or_fresh(base_hook, c_.args[0])}
+        overridden = [C_ for C_ in prog.subclasses(prog.cls("KDCollatorBase"), include_self=False) if "worker_init_fn" in C_.methods]
+        if len(hp) == 1 and None not in hp and sets and hfa.cfg.must_pass(sets) and not overridden:
+            hook_param = next(iter(hp))
+
+    def hook_arg_fresh(fa_, n, call, fi_):
+        kws = [k for k in call.keywords if k.arg == hook_param]
+        if len(kws) != 1:
+            return False
+        t = fa_.sym.term(kws[0].value, n)
+        return t[0] == "call" and t[1][0] == "global" and t[1][1].endswith("get_rng_from_global")
+
     ok, why = fwd.check(root, fi, Member("collators", "elem"), {"set_rng"}, [], arg_ok=arg_fresh,
                         assume={("is", none_pair): False})
+    if not ok and hook_param is not None:
+        ok2, why2 = fwd.check(root, fi, Member("collators", "elem"), {"worker_init_fn"}, [], arg_ok=hook_arg_fresh,
+                              assume={("is", none_pair): False})
+        if ok2:
+            ok, why = ok2, why2
     rep.decide(ok, "G3.collators", fi, "forward:self.collators[*]", why, why, clause="C09.1")
 
     # ---- clause 2: owners forward to their transforms -----------------------------------------------------------
@@ -206,7 +254,7 @@ def run(prog: Program, rep: Report, tier: str):
         for n, call in fa.calls():
             f = call.func
             if isinstance(f, ast.Attribute) and f.attr == "set_rng" and isinstance(f.value, ast.Name) \
-                    and f.value.id == fa.self_name and arg_fresh(fa, n, call, fi):
+                    and f.value.id == fa.self_name and (arg_fresh(fa, n, call, fi) or (call.args and given_or_fresh(fi, call.args[0]))):
                 through.add(n)
         rep.decide(bool(through) and fa.cfg.must_pass(through), "G4.reseed", fi, "call:self.set_rng(fresh)",
                    "self.set_rng(get_rng_from_global()) on every path",
